@@ -990,7 +990,7 @@ impl Property for C12 {
         }
     }
     fn rule(&self) -> &'static str {
-        "one case = 1-3 projects whose output directories are decorated with files not matching the extension filter, nested directories and symbolic links (to files, to directories, dangling, pointing outside the output) + a history of invocations containing `--clean` alone, `--clean T...` and plain runs, with edits in between. Oracle after every invocation: recursive tree snapshot (names, types, link targets, contents, mtimes) after vs before equals the model's deletion set (declared output paths, or only the matching files beneath them; recorded state of the cleaned scope) plus the effects of the scripts that ran; targets in the cleaned scope are never skipped. distinct_nontrivial = distinct order hashes among --clean invocations that had something to delete"
+        "one case = 1-3 projects whose output directories are decorated with files not matching the extension filter, nested directories and symbolic links (to files, to directories, dangling, pointing outside the output) + a history of invocations containing `--clean` alone, `--clean T...` and plain runs, with edits in between. Oracle after every invocation: recursive tree snapshot (names, types, link targets, contents, mtimes) after vs before equals the model's deletion set (declared output paths, or only the matching files beneath them; recorded state of the cleaned scope) plus the effects of the scripts that ran; targets in the cleaned scope are never skipped. In a third of the cases zinoma is additionally killed at 12 evenly spaced decision indices inside the last --clean invocation: whatever was deleted so far must lie inside the deletion set and nothing else may differ. distinct_nontrivial = distinct order hashes among --clean invocations, completed or killed"
     }
     fn assumptions(&self) -> Vec<&'static str> {
         vec!["a declared output path that is itself a symbolic link is not generated (DESIGN.md §7 C12 workload boundary)"]
